@@ -127,7 +127,8 @@ example :
 /-! ### C13_partial_flush: the end-to-end invariant on the append + flush + recovery paths of one shard -/
 
 /-- histories of the fragment, judged along the run: inserts / deletes on shard `s` (any tuples, any buffer size,
-    so with and without auto-flush), crashes between operations, and crashes inside an operation after *any* of its
+    so with and without auto-flush; a delete only when the engine knows the relation — otherwise the repaired
+    `delete_tuples_from` acknowledges `Ok(0)` without touching the store), crashes between operations, and crashes inside an operation after *any* of its
     file-system steps with the as-is image — except an image recognised by `imageDoubled` (the flush window between
     the metadata rename and the WAL rewrite: finding `flush_crash_between_meta_and_wal`), and crashes inside a recovery
     after any of *its* steps (same exception, for the drain flush).  Torn cuts, relation drops, compaction and
@@ -145,9 +146,9 @@ def admissible (b : Nat) (s : Name) : Sys → List HItem → Bool
     | (_, none) => true
     | (_, some w) =>
       match it with
-      | .op o => onShard s o && admissible b s (.up (runOp b w o)) rest
+      | .op o => onShard s o && delKnown w o && admissible b s (.up (runOp b w o)) rest
       | .opCrash o j none =>
-        onShard s o && !imageDoubled (imageAt w.disk (runOp b w o).trace j none) &&
+        onShard s o && delKnown w o && !imageDoubled (imageAt w.disk (runOp b w o).trace j none) &&
           admissible b s (.down (imageAt w.disk (runOp b w o).trace j none)) rest
       | .restart => admissible b s (.down (crash w.disk noCut)) rest
       | _ => false
@@ -247,8 +248,8 @@ theorem C13_partial_flush (b : Nat) (s : Name) (h : List HItem)
       cases it with
       | op o =>
         simp only [admissible, hbu, Bool.and_eq_true] at hadm
-        obtain ⟨ho, hadm'⟩ := hadm
-        obtain ⟨hfail, hrun', _⟩ := op_ok b o ho hrun
+        obtain ⟨⟨ho, hdk⟩, hadm'⟩ := hadm
+        obtain ⟨hfail, hrun', _⟩ := op_ok b o ho hdk hrun
         have hri : runItems b sys (.op o :: rest) =
             outs ++ .ack (!(runOp b w o).failed) ((runOp b w o).trace.map (·.1)) (loopOrder o (runOp b w o).trace) ::
               runItems b (.up (runOp b w o)) rest := by
@@ -266,8 +267,8 @@ theorem C13_partial_flush (b : Nat) (s : Name) (h : List HItem)
         | some c => simp [admissible, hbu] at hadm
         | none =>
           simp only [admissible, hbu, Bool.and_eq_true, Bool.not_eq_true'] at hadm
-          obtain ⟨⟨ho, hnd⟩, hadm'⟩ := hadm
-          obtain ⟨_, _, hpre⟩ := op_ok b o ho hrun
+          obtain ⟨⟨⟨ho, hdk⟩, hnd⟩, hadm'⟩ := hadm
+          obtain ⟨_, _, hpre⟩ := op_ok b o ho hdk hrun
           have hri : runItems b sys (.opCrash o j none :: rest) =
               outs ++ .crashed (loopOrder o (runOp b w o).trace) ::
                 runItems b (.down (imageAt w.disk (runOp b w o).trace j none)) rest := by
